@@ -30,6 +30,7 @@ CONSTANTS Adders,       \* tasks that call Add
           Rotators,     \* tasks that call rotate1 (first open or weekly rotation)
           CtrOf,        \* Adders -> counter name
           NAdds,        \* Adders -> number of sequential Add(1) calls
+          NRot,         \* Rotators -> number of sequential rotate1 calls (the clock moves on one span between two calls)
           Counters,
           Warm,         \* counters that were incremented once before the race starts (file open)
           InitOpen,     \* TRUE: the file of span 1 is open (mapping 1) at the start
@@ -44,7 +45,7 @@ CONSTANTS Adders,       \* tasks that call Add
           FixF15        \* repair: releaseLock always looks the pointer up after setting havePtr
 
 Tasks == Adders \cup Rotators
-Files == {1, 2}
+Files == {1, 2, 3}
 MaxMaps == 6
 
 (* ---- the state word (counter.go: counterStateBits) ---- *)
@@ -115,7 +116,7 @@ Used0 == [f \in Files |-> 0]
 Recs0 == [f \in Files |-> IF f = 1 /\ InitOpen THEN Warm ELSE {}]
 Cell0 == [f \in Files |-> [c \in Counters |-> IF f = 1 /\ InitOpen /\ c \in Warm THEN WarmCell ELSE 0]]
 Fspan0 == IF InitOpen THEN 1 ELSE 0
-Stk0 == [t \in Tasks |-> <<[Frame("T_start", IF t \in Adders THEN CtrOf[t] ELSE NoC) EXCEPT !.left = IF t \in Adders THEN NAdds[t] ELSE 0]>>]
+Stk0 == [t \in Tasks |-> <<[Frame("T_start", IF t \in Adders THEN CtrOf[t] ELSE NoC) EXCEPT !.left = IF t \in Adders THEN NAdds[t] ELSE NRot[t] - 1]>>]
 Rv0 == [t \in Tasks |-> 0]
 Begun0 == [c \in Counters |-> IF InitOpen /\ c \in Warm THEN WarmCell ELSE 0]
 ClosedBy0 == [m \in 1..MaxMaps |-> "none"]
@@ -402,8 +403,14 @@ ROdefcur(t) == LET f == Top(t) IN        \* deferred: if next := f.current.Load(
   /\ f.pc = "RO_defcur"
   /\ IF cur # f.m
      THEN stk' = CallFrom(t, [f EXCEPT !.pc = "RO_done"], Frame("IV_head", NoC))
-     ELSE stk' = Goto(t, "T_end")
+     ELSE stk' = Goto(t, IF f.left > 0 THEN "RO_tick" ELSE "T_end")
   /\ U(<<shared, rv, begun, faults, closedBy>>)
+(* between two rotate1 calls of one rotator the clock moves on to the next span *)
+ROtick(t) == LET f == Top(t) IN
+  /\ f.pc = "RO_tick"
+  /\ clock' = clock + 1
+  /\ stk' = SetTop(t, [f EXCEPT !.pc = "RO_lock", !.left = @ - 1, !.m = 0, !.n = 0])
+  /\ U(<<st, ptr, nxt, head, cur, open, mfile, mcap, nmaps, used, recs, cell, mu, fspan, rv, begun, faults, closedBy>>)
 
 Visible(t) ==
   \/ TStart(t) \/ RGnl(t) \/ RGhl(t) \/ RGncas(t) \/ RGnst(t) \/ RGhcas(t)
@@ -413,7 +420,7 @@ Visible(t) ==
   \/ Dload(t) \/ Dcas(t)
   \/ LKcur(t) \/ NClock(t) \/ NCcur(t) \/ NCstore(t)
   \/ IVhead(t) \/ IVaload(t) \/ IVacas(t) \/ IVnext1(t) \/ IVrload(t) \/ IVrcas(t) \/ IVnext2(t)
-  \/ ROlock(t) \/ ROprev(t) \/ ROstore(t) \/ ROdefcur(t)
+  \/ ROlock(t) \/ ROprev(t) \/ ROstore(t) \/ ROdefcur(t) \/ ROtick(t)
 
 (***************************************************************************)
 (* INTERNAL (urgent) steps: local control flow, plain reads/writes of ptr,  *)
@@ -452,7 +459,7 @@ Internal(t) == LET f == Top(t) IN
        [] f.pc = "IV_ret" -> /\ stk' = Pop(t) /\ U(<<ptr, open, rv, begun, closedBy>>)
        [] f.pc = "RO_done" ->             \* previous.close()
             /\ IF f.m # 0 THEN Close(f.m, t) ELSE U(<<open, closedBy>>)
-            /\ stk' = Goto(t, "T_end") /\ U(<<ptr, rv, begun>>)
+            /\ stk' = Goto(t, IF f.left > 0 THEN "RO_tick" ELSE "T_end") /\ U(<<ptr, rv, begun>>)
   /\ U(<<st, nxt, head, cur, mfile, mcap, nmaps, used, recs, cell, mu, fspan, clock, faults>>)
 
 Next == IF \E t \in Tasks : Pending(t)
@@ -465,7 +472,7 @@ Spec == Init /\ [][Next]_vars
 FairSpec == Spec /\ \A t \in Tasks : WF_vars(Step(t))
 
 (* ------------------------------------------------------------ properties *)
-Persisted(c) == cell[1][c] + cell[2][c]
+Persisted(c) == cell[1][c] + cell[2][c] + cell[3][c]
 TaskDone(t) == stk[t] = <<>>
 AllDone == \A t \in Tasks : TaskDone(t) \/ (Active(t) /\ Top(t).pc = "Fault")
 AllReturned == \A t \in Tasks : TaskDone(t)
